@@ -12,8 +12,8 @@ from concurrent.futures import ThreadPoolExecutor
 
 import check as CK
 
-TRANSLATORS = ["codec"]
-COQ_FILES = ["Props/C20.v"]
+TRANSLATORS = ["codec", "enums", "defender"]
+COQ_FILES = ["Props/C20.v", "Props/C20_coord.v"]
 SCENARIOS = ["scenario1_small", "scenario1", "three_nets"]
 
 
@@ -31,8 +31,22 @@ def run_worker(args):
         return args, None, f"unparsable worker output: {e}: {r.stdout[-300:]}"
 
 
+def coordinator_sessions(ctx):
+    """Ties the coordinator model (over which C20_peer_addresses is stated) to coordinator.py - the trace-following
+    correspondence on directed and random sessions - and plays every session a second time with all peer addresses renamed
+    (one-to-one, order reversed): the real coordinator must answer every connection exactly as before."""
+    from props import coordcommon as CC
+    n = 120 if ctx.tier == "thorough" else 46
+    CC.run_sessions(ctx, "C20", n, lambda rng: dict(n_events=rng.choice([30, 60]), burst=0.3, fault=0.1, bad=0.1, resets=0.2),
+                    lambda rng: dict(required=rng.choice([1, 2, 2, 3]), max_steps=rng.choice([1, 2, 3])), rename=True)
+    sub = dict(ctx.coverage)
+    ctx.coverage.clear()
+    ctx.coverage["coordinator_sessions"] = sub
+
+
 def correspondence(ctx):
     th = ctx.tier == "thorough"
+    coordinator_sessions(ctx)
     hashseeds = [0, 1, 2, 3, 4, 5] if not th else list(range(16))
     seeds = [42] if not th else [42, 7, 1234]
     episodes = 3 if not th else 5
@@ -103,6 +117,9 @@ def correspondence(ctx):
 
 
 def replay(ctx, payload):
+    if str(payload.get("kind", "")).startswith("coordinator_session"):
+        from props import coordcommon as CC
+        return CC.replay_session(ctx, "C20", payload)
     print(json.dumps(payload, indent=1)[:3000])
     if payload.get("kind") == "worker_pair" and "hashseeds" in payload:
         runs = [run_worker((payload["scenario"], payload["dynamic"], payload["seed"], payload.get("episodes", 3), hs, payload.get("defender", False))) for hs in payload["hashseeds"]]
